@@ -322,6 +322,11 @@ structure RemoveRes where
   value : Option Bytes
   deriving Repr, DecidableEq
 
+/-- `if newKey != nil { newNode.key = newKey }` -/
+def setKeyOpt (st : St) (a : Addr) : Option Bytes → Option St
+  | some nk => st.modify a (fun c => { c with key := nk })
+  | none => some st
+
 /-- `MutableTree.recursiveRemove` → `(results, orphans)`. -/
 def recursiveRemove (cfg : Cfg) (version : Nat) :
     Nat → St → Addr → Bytes → List Addr → Option (St × RemoveRes × List Addr)
@@ -357,9 +362,7 @@ def recursiveRemove (cfg : Cfg) (version : Nat) :
         else
           let (st, newNode) ← clone st a version
           let st ← st.modify newNode (fun c => { c with rightHash := res.newHash, rightPtr := res.newSelf })
-          let st ← match res.newKey with
-            | some nk => st.modify newNode (fun c => { c with key := nk })
-            | none => some st
+          let st ← setKeyOpt st newNode res.newKey
           let st ← calcHeightAndSize st newNode
           let (st, newNode, orphans) ← balance cfg version st newNode orphans
           let cn ← st.heap[newNode]?
